@@ -91,11 +91,14 @@ def run(ctx):
         count_arg = rng.choice([None, None, 0, 1, 2, 3, 4, 20])
         running = rng.choice(invs) if invs and rng.random() < 0.55 else None
         conf = os.path.join(root, "canvas.conf")
+        # the root as the configuration spells it, also with trailing slashes; the lock file holds
+        # ${ROBSDDIR}/<id> with ROBSDDIR exactly as configured
+        spell = root + rng.choice(["", "", "", "/", "//"])
         with open(conf, "w") as f:
-            f.write('canvas-name "c"\ncanvas-dir "%s"\nstep "a" command { "true" }\nkeep %d\n%s' % (root, keep_conf, "" if attic_on else "keep-attic no\n"))
+            f.write('canvas-name "c"\ncanvas-dir "%s"\nstep "a" command { "true" }\nkeep %d\n%s' % (spell, keep_conf, "" if attic_on else "keep-attic no\n"))
         lockkind = "none"
         if running:
-            open(os.path.join(root, ".running"), "w").write(os.path.join(root, running) + "\n")
+            open(os.path.join(root, ".running"), "w").write(spell + "/" + running + "\n")
             lockkind = "running"
         elif rng.random() < 0.3:
             # a lock file that names nothing: empty (a crash between truncate and write), or stale
@@ -119,7 +122,7 @@ def run(ctx):
         now = [x for x in invs if os.path.isdir(os.path.join(root, x))]
         if rc != 0 or sorted(now) != sorted(want_kept):
             ctx.violation("after robsd-clean (retention %d, running %s) the root holds %s, expected %s" % (n, running, sorted(now, reverse=True), sorted(want_kept, reverse=True)),
-                          dict(invocations=listing, keep_conf=keep_conf, count_arg=count_arg, attic=attic_on, rc=rc, strays=strays, lock_file=lockkind,
+                          dict(invocations=listing, keep_conf=keep_conf, count_arg=count_arg, attic=attic_on, rc=rc, strays=strays, lock_file=lockkind, root_spelled=spell[len(root):] or "(plain)",
                                links={s0: os.readlink(os.path.join(root, s0)) for s0 in strays if os.path.islink(os.path.join(root, s0))},
                                stdout=out.decode(errors="replace")[-400:], stderr=err.decode(errors="replace")[-400:]))
         for x in want_removed:
